@@ -31,6 +31,15 @@ import (
 // exceeds it (buffered / direct-write paths of Client.WritePacket). QoS 0 messages are
 // judged too: whichever of them arrive, arrive in publish order. Keys
 // order:<how>:...:same-segment-burst[:large-overtakes-small], order:qos0:...
+//
+// Full outbound queue: "wpend=N" sets Capabilities.MaximumClientWritesPending to N, so that a
+// same-segment burst longer than N finds a's outbound queue full (a's write loop lags behind
+// the publisher's reader): the overflowing QoS 1/2 messages are reported as dropped
+// (OnPublishDropped). A message may be missing, but if the broker transmits it later after
+// all (deferred release, resend on session resumption, takeover), that is its first
+// transmission and must not come after the first transmission of a message published after
+// it. Key order:<how>:...:late-first-transmission-after-reported-drop:<write-queue-full |
+// packet-ids-exhausted>. Non-vacuity: resumptions_after_write_queue_overflow_and_later_delivery.
 
 func init() {
 	explore.RegisterBFS("c12", qosRun("c12"))
@@ -40,6 +49,8 @@ func init() {
 		c.Rep.Assumption("state = reflective dump of *Server plus reference-model state and pool counters (plus the pre-state for ops with a map-order choice); histories merged only if byte-identical")
 		var sts []*explore.BFSStats
 		if c.Quick() {
+			sts = append(sts, explore.RunBFS(c, "c12", "v=5,rm=0,pubs=4,qos=1,conns=1,wpend=2,bursts=sss", 0, 10*time.Second))
+			sts = append(sts, explore.RunBFS(c, "c12", "v=4,pubs=3,qos=2,conns=1,wpend=1,bursts=ss", 0, 10*time.Second))
 			sts = append(sts, explore.RunBFS(c, "c12", "v=5,rm=1,pubs=3,qos=1,conns=1,maps=1", 0, 25*time.Second))
 			sts = append(sts, explore.RunBFS(c, "c12", "v=5,rm=0,pubs=3,qos=2,conns=1,take=1,maps=1", 0, 25*time.Second))
 			sts = append(sts, explore.RunBFS(c, "c12", "v=4,pubs=3,qos=12,conns=1,maps=1", 0, 15*time.Second))
@@ -54,7 +65,10 @@ func init() {
 			sts = append(sts, explore.RunBFS(c, "c12", "v=5,rm=0,pubs=6,qos=012,conns=1,wbuf=64,bursts=sls.ssls.lsl.ls.sl,nbursts=2", 0, 90*time.Second))
 			sts = append(sts, explore.RunBFS(c, "c12", "v=5,rm=1,pubs=4,qos=1,conns=1,wbuf=64,bursts=sls.ls,maps=1", 0, 60*time.Second))
 			sts = append(sts, explore.RunBFS(c, "c12", "v=4,pubs=4,qos=01,conns=0,wbuf=64,bursts=sls.ssls", 0, 30*time.Second))
+			sts = append(sts, explore.RunBFS(c, "c12", "v=5,rm=0,pubs=5,qos=1,conns=1,take=1,wpend=2,bursts=sss.ssss", 0, 60*time.Second))
+			sts = append(sts, explore.RunBFS(c, "c12", "v=4,pubs=4,qos=2,conns=1,wpend=1,bursts=ss.sss,maps=1", 0, 45*time.Second))
+			sts = append(sts, explore.RunBFS(c, "c12", "v=5,rm=2,pubs=4,qos=1,conns=1,wpend=1,bursts=ss.sss,maps=1", 0, 45*time.Second))
 		}
-		qosFold(c, sts, "first_tx_release", "first_tx_reconnect", "nondefault_getall_orders_executed", "bursts_backlogged_large_behind_small", "first_tx_qos0")
+		qosFold(c, sts, "first_tx_release", "first_tx_reconnect", "nondefault_getall_orders_executed", "bursts_backlogged_large_behind_small", "first_tx_qos0", "resumptions_after_write_queue_overflow_and_later_delivery")
 	})
 }
